@@ -7,6 +7,7 @@ import (
 	"math/rand"
 	"os"
 	"path/filepath"
+	"runtime"
 	"sync"
 	"sync/atomic"
 	"time"
@@ -360,17 +361,19 @@ func c13InFlight(rep *childReport, seed int64, idx int) {
 // monitor looks (T = time since the callers were let go, read together with the count) is bounded.
 // Real clock, upper bound on a count that a slow machine can only make smaller.
 func c13FirstContact(rep *childReport, seed int64, idx int) {
-	const callers, capacity, rate = 32, 1.0, 0.1
-	for round := 0; round < 40; round++ {
+	const callers, capacity, rate = 24, 1.0, 0.1
+	for round := 0; round < 120; round++ {
 		ctx, cancel := context.WithCancel(context.Background())
 		bm := ratelimiter.NewBucketManager(ctx, 64, capacity, rate, time.Hour)
 		host := fmt.Sprintf("first%d-%d.example", idx, round)
 		var ready, returned atomic.Int64
-		gate := make(chan struct{})
+		var gate atomic.Bool
 		for i := 0; i < callers; i++ {
 			go func() {
 				ready.Add(1)
-				<-gate
+				for !gate.Load() { // spin: the callers must reach the manager at the same instant
+					runtime.Gosched()
+				}
 				bm.Wait(host) // the callers that find no token keep polling until the process ends
 				returned.Add(1)
 			}()
@@ -379,8 +382,8 @@ func c13FirstContact(rep *childReport, seed int64, idx int) {
 			time.Sleep(time.Millisecond)
 		}
 		t0 := time.Now()
-		close(gate)
-		time.Sleep(250 * time.Millisecond)
+		gate.Store(true)
+		time.Sleep(120 * time.Millisecond)
 		n := returned.Load()
 		el := time.Since(t0).Seconds()
 		bound := int64(capacity) + int64(math.Ceil(rate*el))
